@@ -112,7 +112,11 @@ def run_case(job):
         qm = q0 @ A.T + b
         exp = p(q0[:, 0], q0[:, 1], q0[:, 2])
         singles = [(f"single-interior", qm[k:k + 1], exp[k:k + 1]) for k in range(n_fixed, len(qm))]
-        for label, pts, ex in [("batch", qm, exp), ("single", qm[1:2], exp[1:2]), ("pair", qm[:2], exp[:2])] + singles:
+        # small batches of interior points (the nearest-node pre-search then visits only part of the elements and the points it
+        # misses go through the fallback search): every batch must give what the points give one at a time
+        order = np.random.default_rng(1).permutation(np.arange(n_fixed, len(qm)))
+        small = [("batch6", qm[order[k:k + 6]], exp[order[k:k + 6]]) for k in range(0, min(len(order), 96), 6)]
+        for label, pts, ex in [("batch", qm, exp), ("single", qm[1:2], exp[1:2]), ("pair", qm[:2], exp[:2])] + singles + small:
             try:
                 with quiet():
                     got = np.asarray(mesh.Evaluate_dofsValues_at_coordinates(pts, vals)).ravel()
